@@ -125,7 +125,7 @@ def run(chk):
     n = 500 if quick else 12000
     ts, srcs = [], []
     for i in range(n):
-        g = tg.TmplGen(rng.fork(("t", i)), max_depth=3 if i % 5 else 4)
+        g = tg.TmplGen(rng.fork(("t", i)), max_depth=3 if i % 5 else 4, dyn=True)
         t = g.template()
         ts.append(t)
         srcs.append(tg.Printer(rng.fork(("p", i)), vary=(i % 3 != 0)).template(t))
@@ -160,6 +160,35 @@ def run(chk):
     chk.programs += len(items)
     chk.bump("oracle:render-cases", len(items))
     chk.bump("oracle:render-mismatches", nb)
+    # <template is> across files: a template defined in the file itself wins over an imported one of the same name, a later import over an
+    # earlier one, and <include> renders the included file's content in place (the texts name the file that supplied them)
+    lib = lambda tag: '<template name="cell"><text>%s:{{a}}</text></template><template name="only-%s">%s-only:{{a}}</template>' % (tag, tag, tag)
+    multi = [
+        ([["p", '<import src="./lib1"/><template name="cell"><text>own:{{a}}</text></template><template is="cell" data="{{a}}"/><template is="only-lib1" data="{{a}}"/>'],
+          ["lib1", lib("lib1")]], ["own:A", "lib1-only:A"]),
+        ([["p", '<import src="./lib1"/><import src="./lib2"/><template is="cell" data="{{a}}"/><template is="only-lib1" data="{{a}}"/><template is="only-lib2" data="{{a}}"/>'],
+          ["lib1", lib("lib1")], ["lib2", lib("lib2")]], ["lib2:A", "lib1-only:A", "lib2-only:A"]),
+        ([["p", '<import src="./lib2"/><import src="./lib1"/><template is="{{n}}" data="{{a}}"/>'], ["lib1", lib("lib1")], ["lib2", lib("lib2")]], ["lib1:A"]),
+        ([["p", '<template name="cell">first:{{a}}</template><include src="./inc"/><template is="cell" data="{{a}}"/>'], ["inc", "<text>inc:{{a}}</text>"]], ["inc:A", "first:A"]),
+        ([["p", '<import src="./lib1"/><view wx:for="{{l}}"><template is="cell" data="{{a: item}}"/></view><template name="cell">own:{{a}}</template>'], ["lib1", lib("lib1")]],
+         ["own:1", "own:2"]),
+    ]
+    mg = render.compile_templates([m[0] for m in multi])
+    mreqs = [{"op": "render", "gen_groups": g["gen_groups"], "path": "p", "steps": [{"create": {"a": "A", "n": "cell", "l": [1, 2]}}]} for g in mg if isinstance(g.get("gen_groups"), str)]
+    mres = core.run_node(mreqs) if len(mreqs) == len(multi) else []
+    if len(mres) != len(multi):
+        chk.violation("input", "compiler failed on a multi-file template group", answer=json.dumps(mg)[:300])
+    def texts(tree, acc):
+        for n_ in tree:
+            if "text" in n_:
+                acc.append(n_["text"])
+            texts(n_.get("children", []), acc)
+        return acc
+    for (files, want), r_ in zip(multi, mres):
+        got = texts(r_["snapshots"][0]["tree"], []) if r_.get("snapshots") else r_.get("error")
+        chk.evaluations += 1
+        if got != want:
+            chk.violation("input", f"templates across files: rendered texts {got}, the references resolve to {want}", files=files, template=files[0][1])
 
 
 def replay(chk, path):
